@@ -35,10 +35,18 @@ func cfgFor(tc *tunnelCase, headLen, replyLen int) modelCfg {
 	return c
 }
 
+// legsWire: Model/C03.lean Legs of a mode, client leg first (1 = closeWriter can half-close the leg).
+func legsWire(mode string) string {
+	return "1," + core.B01(legCanHalfClose(mode))
+}
+
 type ev struct {
 	write []byte // nil = not a write
 	fin   bool
 	wait  bool // wait until the opposite direction was shown end-of-stream by the proxy
+	// waitFin: wait until the opposite endpoint has half-closed and the proxy has moved all it wrote
+	// (tunnelCase.NoWaitEOF: the far side knows it in-process)
+	waitFin bool
 }
 
 func segEvents(b []byte, pat []int) []ev {
@@ -91,7 +99,7 @@ func schedule(r *core.Rand, c modelCfg, tc *tunnelCase, head, reply []byte, sent
 	}
 	tg = append(tg, segEvents(down[co:tc.Down1], tc.DownSegs)...)
 	if tc.Order == "client-first" {
-		tg = append(tg, ev{wait: true})
+		tg = append(tg, ev{wait: !tc.NoWaitEOF, waitFin: tc.NoWaitEOF})
 		tg = append(tg, segEvents(down[tc.Down1:], tc.DownSegs)...)
 	}
 	tg = append(tg, ev{fin: true})
@@ -123,7 +131,7 @@ func schedule(r *core.Rand, c modelCfg, tc *tunnelCase, head, reply []byte, sent
 				}
 			})
 		}
-		if len(tg) > 0 && phase >= 1 && !(tg[0].wait && !done[0]) {
+		if len(tg) > 0 && phase >= 1 && !(tg[0].wait && !done[0]) && !(tg[0].waitFin && !(fin[0] && phase >= 3 && avail(0) == 0)) {
 			opts = append(opts, func() {
 				e := tg[0]
 				tg = tg[1:]
@@ -239,7 +247,8 @@ func (e *env) compareWithModelRun(ctx *core.Ctx, tc *tunnelCase, obs *tunnelObs,
 		return true
 	}
 	steps := schedule(r, c, tc, head, reply, obs.sentPre, up, down)
-	ans := ctx.Model.MustAsk("C03", "run", c.wire(), core.JoinList2(steps))
+	// the machine with what closeWriter can do to the legs of this configuration, under the code's policy
+	ans := ctx.Model.MustAsk("C03", "hrun", c.wire(), legsWire(tc.Mode), "leave", core.JoinList2(steps))
 	kv := map[string]string{}
 	for _, f := range strings.Fields(ans) {
 		if i := strings.IndexByte(f, '='); i > 0 {
@@ -250,9 +259,10 @@ func (e *env) compareWithModelRun(ctx *core.Ctx, tc *tunnelCase, obs *tunnelObs,
 		core.Fatalf("C03: the model rejected a generated schedule: %s (steps %v)", ans, steps)
 	}
 	mu, md := core.MustUnHex(kv["up"]), core.MustUnHex(kv["down"])
-	want := "phase=closed eofU=1 eofD=1 closedC=1 closedT=1 expired=0 dropped=0 accept=1"
-	got := fmt.Sprintf("phase=%s eofU=%s eofD=%s closedC=%s closedT=%s expired=%s dropped=%s accept=%s",
-		kv["phase"], kv["eofU"], kv["eofD"], kv["closedC"], kv["closedT"], kv["expired"], kv["dropped"], kv["accept"])
+	want := "phase=closed eofU=1 eofD=1 closedC=1 closedT=1 expired=0 dropped=0 accept=1 shownU=1 shownD=1 cut=0"
+	got := fmt.Sprintf("phase=%s eofU=%s eofD=%s closedC=%s closedT=%s expired=%s dropped=%s accept=%s shownU=%s shownD=%s cut=%s",
+		kv["phase"], kv["eofU"], kv["eofD"], kv["closedC"], kv["closedT"], kv["expired"], kv["dropped"], kv["accept"],
+		kv["shownU"], kv["shownD"], kv["cut"])
 	if got != want {
 		ctx.Disagree("the model's terminal state after both half-closes is the closed, complete one", tc, impl, got)
 		return false
